@@ -2,15 +2,20 @@
    Statements only; every proof is [exact lemma].
 
    Model: coq/Lock/Model.v — host/contracts/lock.go (locker.Lock, locker.Unlock, Manager.Lock,
-   Manager.Unlock, Manager.LockV2Contract) as a transition system with one transition per
-   critical section.  [reachable k s]: s is reached from the empty locker with k caller
-   sessions by ANY finite sequence of actions (any k, any contract ids, any interleaving of
-   calls, context cancellations and the internal steps of calls in progress).
+   Manager.Unlock, Manager.LockV2Contract) and host/contracts/integrity.go (Manager.CheckIntegrity,
+   Manager.V2CheckIntegrity), i.e. every user of the contract lock inside the manager, as a
+   transition system with one transition per critical section.  [reachable k s]: s is reached
+   from the empty locker with k caller sessions by ANY finite sequence of actions (any k, any
+   contract ids, any interleaving of Lock / Manager.Lock / LockV2Contract calls, integrity checks,
+   context cancellations and the internal steps of calls in progress).
 
    Assumptions, stated once:
-   * protocol: Unlock(id) is only called by the session that holds id (AUnlock is enabled in
-     pc Holding only) — this is what Manager.Lock/Unlock/LockV2Contract's callers do
-     (integrity.go: defer cm.Unlock / defer unlock());
+   * protocol: a client of the manager (rhp/v2, rhp/v3, rhp/v4, api: outside host/contracts) calls
+     Manager.Unlock(id) / the closure returned by LockV2Contract only while it holds id, once per
+     hold (AUnlock is enabled in pc Holding only).  For the users of the lock INSIDE the manager
+     — the error paths of Manager.Lock / LockV2Contract, the deferred releases of CheckIntegrity /
+     V2CheckIntegrity — this is not assumed but proved: [c15_unlock_only_by_holder],
+     [c15_session_releases_what_it_acquired], [c15_wrapper_paths];
    * atomicity: code under lr.mu, a channel send/receive and the choice made by a select are
      atomic steps; what lies below (Go memory model, runtime channels/select/sync.Mutex) is
      trusted, not modelled;
@@ -20,12 +25,13 @@
      terminate); the eventuality itself on the Go scheduler is the part the model cannot carry,
      hence [c15_waiter_progress_partial]. *)
 From HostdBase Require Import Base.
-From HostdLock Require Import Model Proofs Proofs2 Proofs3.
+From HostdLock Require Import Model Proofs Proofs2 Proofs3 Proofs4.
 Local Open Scope Z_scope.
 
 (** At most one caller holds the lock of a given contract at any time.  ([holds i th]: th is in
     pc Holding i, or — Manager level — in the error path after locks.Lock returned nil and before
-    its cm.locks.Unlock(i).) *)
+    its cm.locks.Unlock(i), or inside CheckIntegrity / V2CheckIntegrity between the successful
+    lock call and the deferred release.) *)
 Theorem c15_mutual_exclusion : forall k s,
   reachable k s ->
   forall i t1 t2 th1 th2,
@@ -169,6 +175,109 @@ Theorem c15_manager_error_path_releases : forall k s t th i,
 Proof. exact manager_error_path_releases. Qed.
 Print Assumptions c15_manager_error_path_releases.
 
+(** * The users of the lock inside the manager (lock.go, integrity.go) as wrappers *)
+
+(** Every execution of locker.Unlock's code (Manager.Unlock / the LockV2Contract closure by a
+    holder, the error paths of Manager.Lock / LockV2Contract, the deferred release of an integrity
+    check) is made by the session that holds the contract: the entry is found (the panic branch
+    "unlocking unheld lock" is not taken), no token is pending (the send cannot block), there was
+    exactly one holder and afterwards there is none until a waiter takes the token. *)
+Theorem c15_unlock_only_by_holder : forall k s a s',
+  reachable k s -> step s a = Some s' -> is_release a = true ->
+  exists th i a0 o th',
+    nth_error (ths s) (act_tid a) = Some th /\ holds i th
+    /\ tlookup i (tbl s) = Some a0 /\ hget a0 (heap s) = Some o /\ ltok o = 0 /\ 1 <= ln o
+    /\ count (is_holder i) s = 1
+    /\ nth_error (ths s') (act_tid a) = Some th' /\ tpc th' = Idle
+    /\ count (is_holder i) s' = 0.
+Proof. exact unlock_only_by_holder. Qed.
+Print Assumptions c15_unlock_only_by_holder.
+
+(** Every wrapper releases exactly what it acquired: over any execution, session t has run
+    Unlock(i) exactly as often as it was handed i (fast path of its call, or the token), not
+    counting the one hold it may have right now. *)
+Theorem c15_session_releases_what_it_acquired : forall k l s' t i,
+  run (init k) l = Some s' ->
+  tally (acquire_by t i) (init k) l = tally (release_by t i) (init k) l + holding_now t i s'
+  /\ 0 <= holding_now t i s' <= 1.
+Proof. exact session_balance. Qed.
+Print Assumptions c15_session_releases_what_it_acquired.
+
+(** On every path: a session inside a wrapper that was handed the lock (Manager-level error path,
+    body of a check, its return) can only take the next piece of that wrapper ... *)
+Theorem c15_wrapper_paths : forall s a s' t th i,
+  step s a = Some s' -> act_tid a = t -> nth_error (ths s) t = Some th ->
+  (tpc th = Releasing i -> a = AErrUnlock t \/ (a = ACtxDone t /\ s' = s))
+  /\ (forall v, tpc th = Checking i v -> a = ABody t \/ (a = ACtxDone t /\ s' = s))
+  /\ (forall r, tpc th = Deferred i r -> a = ADeferUnlock t \/ (a = ACtxDone t /\ s' = s)).
+Proof. exact wrapper_paths. Qed.
+Print Assumptions c15_wrapper_paths.
+
+(** ... the body of CheckIntegrity / V2CheckIntegrity leaves the lock alone and ends in the return
+    its root checks select (error returns and the normal return alike) ... *)
+Theorem c15_check_body_runs : forall k s t th i v,
+  reachable k s -> nth_error (ths s) t = Some th -> tpc th = Checking i v ->
+  exists s' th', step s (ABody t) = Some s' /\ nth_error (ths s') t = Some th'
+                 /\ tpc th' = Deferred i (if v then RNil else RMgrErr)
+                 /\ tbl s' = tbl s /\ heap s' = heap s.
+Proof. exact check_body_runs. Qed.
+Print Assumptions c15_check_body_runs.
+
+(** ... and the deferred release then runs once, completes in its one critical section and the
+    check returns. *)
+Theorem c15_check_deferred_release_completes : forall k s t th i r,
+  reachable k s -> nth_error (ths s) t = Some th -> tpc th = Deferred i r ->
+  exists s' th', step s (ADeferUnlock t) = Some s' /\ nth_error (ths s') t = Some th'
+                 /\ tpc th' = Idle /\ tret th' = r.
+Proof. exact check_deferred_release_completes. Qed.
+Print Assumptions c15_check_deferred_release_completes.
+
+(** An integrity check of a free contract: in, body, out, and the contract is free again. *)
+Theorem c15_check_round_trip : forall k s t th i d v,
+  reachable k s -> nth_error (ths s) t = Some th -> tpc th = Idle -> tlookup i (tbl s) = None ->
+  exists s3 th3, run s [ACheck t i d false v; ABody t; ADeferUnlock t] = Some s3
+                 /\ nth_error (ths s3) t = Some th3 /\ tpc th3 = Idle
+                 /\ tret th3 = (if v then RNil else RMgrErr)
+                 /\ tlookup i (tbl s3) = None.
+Proof. exact check_round_trip. Qed.
+Print Assumptions c15_check_round_trip.
+
+(** No leak, integrity checks included ([reachable] covers them): when everybody has returned the
+    table is empty and a check of any contract is inside its body at once. *)
+Theorem c15_no_leak_check : forall k s t th i d b v,
+  reachable k s -> (forall t th, nth_error (ths s) t = Some th -> tpc th = Idle) ->
+  nth_error (ths s) t = Some th ->
+  tbl s = [] /\
+  exists s' th', step s (ACheck t i d b v) = Some s' /\ nth_error (ths s') t = Some th'
+                 /\ tpc th' = (if b then Releasing i else Checking i v).
+Proof. exact no_leak_check. Qed.
+Print Assumptions c15_no_leak_check.
+
+(** Unlock by a session that does not hold the lock ([stray_unlock]: the same code, lock.go:33-46,
+    run by anybody).  On a contract nobody is attached to it panics ... *)
+Theorem c15_stray_unlock_unheld_panics : forall k s t th i,
+  reachable k s -> nth_error (ths s) t = Some th ->
+  (forall u thu, nth_error (ths s) u = Some thu -> ~ attached i (tpc thu)) ->
+  exists s' th', stray_unlock s t i = Some s' /\ nth_error (ths s') t = Some th' /\ tpc th' = Panicked.
+Proof. exact stray_unlock_unheld_panics. Qed.
+Print Assumptions c15_stray_unlock_unheld_panics.
+
+(** ... and on a contract somebody else holds it silently gives up that hold: a second run of an
+    integrity check's release, with a waiter admitted in between, ends in two holders.  This is
+    what [c15_unlock_only_by_holder] and [c15_session_releases_what_it_acquired] exclude for
+    the code as it is. *)
+Theorem c15_second_release_breaks_exclusion :
+  exists s s1 s2,
+    run (init 4) [ALock 0 5%N false false; ACheck 1 5%N false false true; ALock 2 5%N false false;
+                  AUnlock 0; ARecv 1; ABody 1; ADeferUnlock 1; ARecv 2] = Some s
+    /\ obs_of s = ([SIdle; SIdle; SHold 5%N; SIdle], [(5%N, 1, 0)])
+    /\ stray_unlock s 1 5%N = Some s1
+    /\ obs_of s1 = ([SIdle; SIdle; SHold 5%N; SIdle], [])
+    /\ step s1 (ALock 3 5%N false false) = Some s2
+    /\ obs_of s2 = ([SIdle; SIdle; SHold 5%N; SHold 5%N], [(5%N, 1, 0)]).
+Proof. exact second_release_breaks_exclusion. Qed.
+Print Assumptions c15_second_release_breaks_exclusion.
+
 (** The tie: what the correspondence checker accepts.  [successors] is exactly the set of
     quiescent states reachable by interleaving the recorded external actions (each once) with
     internal steps; an accepted case is a model execution showing the recorded observations. *)
@@ -197,3 +306,14 @@ Example c15_nonvacuous :
         (Par [ACtxDone 1; AUnlock 0]))
      = [([SIdle; SHold 5%N; SWait 5%N], [(5%N, 2, 0)]); ([SIdle; SCtxErr; SHold 5%N], [(5%N, 1, 0)])].
 Proof. vm_compute; split; [eexists; repeat split|reflexivity]. Qed.
+
+(* non-vacuity of the wrapper theorems: a holder, a queued integrity check whose root checks fail,
+   a queued Lock; the holder unlocks: either the Lock takes the token and the check stays parked
+   behind it, or the check is admitted, returns its error and its deferred release admits the
+   Lock — in both quiescent successors the contract has one holder and is counted right. *)
+Example c15_check_nonvacuous :
+  map obs_of (successors (successors (successors (successors [init 3]
+        (Par [ALock 0 5%N false false])) (Par [ACheck 1 5%N false false false])) (Par [ALock 2 5%N false false]))
+        (Par [AUnlock 0]))
+  = [([SIdle; SWait 5%N; SHold 5%N], [(5%N, 2, 0)]); ([SIdle; SMgrErr; SHold 5%N], [(5%N, 1, 0)])].
+Proof. vm_compute; reflexivity. Qed.
